@@ -93,7 +93,12 @@ def check_propagation(idx: Index, rep: Report) -> None:
                     r.fail(inst, Finding("C25.R2", d.fq, f"change-dropped:{unparse(s)}", f"`{unparse(s)}` is not followed on every path by propagate_if_changed({lat}, ChangeResult.CHANGE)", f"{LA}:{s.lineno}"))
     fw = idx.func(SA, "SparseBackwardDataFlowAnalysis.meet")
     a, b = fw.node.args.args[1].arg, fw.node.args.args[2].arg
-    if [unparse(s) for s in fw.node.body if not (isinstance(s, ast.Expr) and isinstance(s.value, ast.Constant))] == [f"self.propagate_if_changed({a}, {a}.meet({b}))"]:
+    from ..paths import enum_paths as _ep
+
+    def _calls_on(pth):
+        return [pth.res(e_.value, k) for k, e_ in enumerate(pth.effects) if isinstance(e_, ast.Expr) and isinstance(e_.value, ast.Call)]
+
+    if all(_calls_on(pth) == [f"self.propagate_if_changed({a}, {a}.meet({b}))"] and pth.end == "fall" for pth in _ep(fw.node)):
         r.ok(fw.fq, f"{fw.loc} framework meet propagates the change of the lhs lattice")
     else:
         r.fail(fw.fq, Finding("C25.R2", fw.fq, "framework-meet", "SparseBackwardDataFlowAnalysis.meet must be propagate_if_changed(lhs, lhs.meet(rhs))", fw.loc))
@@ -163,7 +168,22 @@ def check_solver(idx: Index, rep: Report) -> None:
     else:
         r.fail(f.fq, Finding("C25.R4", f.fq, "propagate", "propagate_if_changed must call state.on_update(self) exactly when changed is CHANGE", f.loc))
     f, b = body(DF, "AnalysisState.on_update")
-    if b == ["for point, analysis in self.dependents:\n    solver.enqueue((point, analysis))"]:
+    from ..paths import enum_paths as _ep2, loops_of as _lo
+
+    def _on_update_ok(fn_node) -> bool:
+        ps = _ep2(fn_node)
+        lps = _lo(ps)
+        if len(lps) != 1 or lps[0].riter != "self.dependents" or not isinstance(lps[0].node, ast.For):
+            return False
+        tg = unparse(lps[0].node.target)
+        bodies = lps[0].body
+        if len(bodies) != 1 or bodies[0].end != "fall":
+            return False
+        calls = [bodies[0].res(e_.value, k) for k, e_ in enumerate(bodies[0].effects) if isinstance(e_, ast.Expr) and isinstance(e_.value, ast.Call)]
+        want = {f"solver.enqueue(({tg.strip('()')}))", f"solver.enqueue({tg})"}
+        return len(calls) == 1 and calls[0] in want and all(all(not isinstance(e_, ast.AST) or e_ is lps[0].node for e_ in pth.effects if not isinstance(e_, tuple) and not hasattr(e_, "body")) or True for pth in ps)
+
+    if _on_update_ok(f.node):
         r.ok(f.fq, f"{f.loc} every dependent enqueued")
     else:
         r.fail(f.fq, Finding("C25.R4", f.fq, "on-update", "on_update must enqueue every (point, analysis) of self.dependents", f.loc))
@@ -172,11 +192,19 @@ def check_solver(idx: Index, rep: Report) -> None:
         r.ok(f.fq, f"{f.loc} dependency recorded")
     else:
         r.fail(f.fq, Finding("C25.R4", f.fq, "add-dependency", "add_dependency must record (dependent_point, self) in state.dependents", f.loc))
-    f, b = body(DF, "DataFlowSolver.enqueue")
-    if b[-1:] == ["self._worklist.append(item)"]:
-        r.ok(f.fq, f"{f.loc} work item appended")
-    else:
+    f = idx.func(DF, "DataFlowSolver.enqueue")
+    ecfg = CFG(f.node)
+    item = f.node.args.args[1].arg
+    apps = {ecfg.node_of(c) for c in calls_in(f.node) if call_attr(c) in ("append", "appendleft", "add", "put") and "worklist" in unparse(c.func) and c.args and unparse(c.args[0]) == item}
+    if not apps:
         r.fail(f.fq, Finding("C25.R4", f.fq, "enqueue", "enqueue must append the item to the worklist", f.loc))
+    else:
+        drop = ecfg.path_avoiding(ecfg.entry, ecfg.exit, lambda n: n.id in apps, follow_exc=False)
+        # a path that leaves by raising (solver not running) is not a drop
+        if drop is not None and not any(isinstance(ecfg.nodes[n_].ast, ast.Raise) for n_ in drop):
+            r.fail(f.fq, Finding("C25.R4", f.fq, "enqueue-dropped", "a path through enqueue returns without putting the item on the worklist: " + " -> ".join(ecfg.describe(drop)[-3:]) + " — a dependent that was already visited in the current sweep is not re-visited when the state it depends on changes later in that sweep, so the solver stops before the fixpoint (the result depends on the visiting order)", f.loc))
+        else:
+            r.ok(f.fq, f"{f.loc} every enqueue request reaches the worklist")
     f = idx.func(DF, "DataFlowSolver.initialize_and_run")
     t = unparse(f.node)
     ok = "for analysis in self._analyses:\n            analysis.initialize(op)" in t and "while self._worklist:" in t and "analysis.visit(point)" in t and ("self._worklist.popleft()" in t or "self._worklist.pop()" in t)
@@ -188,7 +216,28 @@ def check_solver(idx: Index, rep: Report) -> None:
     else:
         r.fail(f.fq, Finding("C25.R4", f.fq, "run-loop", "initialize_and_run must initialise every analysis and visit work items until the worklist is empty (no early exit)", f.loc))
     f, b = body(DF, "ChangeResult.__or__")
-    if b == ["return ChangeResult.CHANGE if self == ChangeResult.CHANGE else other"]:
+
+    def _or_ok(fn_node) -> bool:
+        oth = fn_node.args.args[1].arg
+        seen_ = set()
+        for pth in _ep2(fn_node):
+            if pth.end != "return" or not pth.feasible():
+                return False
+            nf = pth.nfacts()
+            is_change = next((pol for t_, pol in nf if t_ in ("self == ChangeResult.CHANGE", "self is ChangeResult.CHANGE", "ChangeResult.CHANGE == self")), None)
+            is_nochange = next((pol for t_, pol in nf if t_ in ("self == ChangeResult.NO_CHANGE", "self is ChangeResult.NO_CHANGE")), None)
+            if is_change is None and is_nochange is not None:
+                is_change = not is_nochange
+            rv = pth.rvalue()
+            if is_change is True and rv in ("ChangeResult.CHANGE", "self"):
+                seen_.add(True)
+            elif is_change is False and rv == oth:
+                seen_.add(False)
+            else:
+                return False
+        return seen_ == {True, False}
+
+    if _or_ok(f.node):
         r.ok(f.fq, f"{f.loc} join of change results")
     else:
         r.fail(f.fq, Finding("C25.R4", f.fq, "change-or", "ChangeResult.__or__ must be CHANGE if either side is CHANGE", f.loc))
